@@ -17,10 +17,10 @@ func init() {
 		Level: "Decides the shape of the state machine: the only writers of an alert's state are the constructor literal (pending) and three assignments in AlertingRule.Eval, each controlled by a comparison of the same alert's state with a constant, which yields exactly the relation {new→pending, pending→firing, firing→pending (hold duration raised), pending|firing→inactive}; " +
 			"an inactive alert is never revived but replaced by a new pending one; an absent pending alert is deleted, an absent firing one is resolved (with its resolution time) unless kept firing, which requires the firing state and a positive keep_firing_for; " +
 			"resolved alerts are deleted only through the retention comparison; the ALERTS/ALERTS_FOR_STATE samples are produced only once the for-state restore has run, and every path of RestoreForState through a rule marks it restored; the active table is only touched under its mutex.",
-		Note:     "Trusted: go/packages, go/types, go/cfg; rule tables in checker/c44.go.",
-		Covers:   "AlertingRule.Eval, Alert.State writers module-wide, AlertingRule.active lockset, Group.RestoreForState restore flag, AlertState.String.",
-		NotCover: "the time arithmetic (for, keep_firing_for, retention, outage tolerance, grace period) and the values of the emitted samples.",
-		Run:      runC44,
+		Note:           "Trusted: go/packages, go/types, go/cfg; rule tables in checker/c44.go.",
+		Covers:         "AlertingRule.Eval, Alert.State writers module-wide, AlertingRule.active lockset, Group.RestoreForState restore flag, AlertState.String.",
+		NotCover:       "the time arithmetic (for, keep_firing_for, retention, outage tolerance, grace period) and the values of the emitted samples.",
+		Run:            runC44,
 		MinObligations: 30,
 	})
 }
